@@ -187,7 +187,7 @@ inductive Outcome where
   | notFound                                              -- 404
   | redirect                                              -- 301 to `path_url + '/'`
   | isADirectory (path : Text)                            -- `open(path, 'rb')` raises IsADirectoryError
-  | valueError                                            -- pkg_resources refuses a Windows-absolute resource name
+  | valueError                                            -- pkg_resources refuses a Windows-absolute resource name (unguarded call)
   | file (path : Text) (enc : Option Enc) (vary : Bool)   -- 200, body = bytes of `path`
 deriving Repr, DecidableEq
 
@@ -287,14 +287,16 @@ def raisesFrom (fs : Fs) (base : Text) : List (Source × Text) → Text → Bool
 def pkgRaises (fs : Fs) (w : OvView) (name : Text) : Bool :=
   raisesFrom fs w.v.base (w.ovs.filterMap fun o => o.apply name) name
 
-/-- `get_resource_name` with the override layer (package branch; the filesystem branch is `resourceName`'s) -/
+/-- `get_resource_name` with the override layer (package branch; the filesystem branch is `resourceName`'s).
+fbf36b3: `resource_isdir` is asked first, and a ValueError from it ("absolute" resource name) is answered 404. -/
 def resourceNameOv (fs : Fs) (w : OvView) (slash : Bool) (segs : List Seg) : NameOutcome :=
   if w.v.pkg then
     match securePath segs with
     | none => .notFound
     | some path =>
       let rp := pkgResourcePath w.v.docroot path
-      if pkgIsDir fs w rp then
+      if pkgRaises fs w rp then .notFound
+      else if pkgIsDir fs w rp then
         if !slash then .redirect else .name (rstripSlash rp ++ '/' :: w.v.index)
       else .name rp
   else resourceName fs w.v slash segs
@@ -312,20 +314,14 @@ def candidatesOv (fs : Fs) (w : OvView) (name : Text) : List Cand :=
   w.v.encs.flatMap fun (e, exts) =>
     exts.filterMap fun ext => (findResourcePathOv fs w (name ++ ext)).map fun p => ⟨p, some e⟩
 
-/-- the first pkg_resources call, `resource_isdir(pkg, resource_path)`, raises -/
-def raisesFirst (fs : Fs) (w : OvView) (segs : List Seg) : Bool :=
-  w.v.pkg && (match securePath segs with
-              | some path => pkgRaises fs w (pkgResourcePath w.v.docroot path)
-              | none => false)
-
-/-- `get_possible_files` asks about the name and about every `name + ext`: one of these calls raises -/
+/-- `get_possible_files` asks `resource_exists` / `resource_isdir` / `resource_filename` about the name and about every
+`name + ext`, unguarded: one of these calls raises (possible although the guarded first call did not: the index name of a
+directory called `X:`, or a variant name missing from the filesystem override source that has the plain name) -/
 def raisesLater (fs : Fs) (w : OvView) (n : Text) : Bool :=
   w.v.pkg && (n :: w.v.encs.flatMap fun (_, exts) => exts.map fun ext => n ++ ext).any (pkgRaises fs w)
 
 /-- `static_view.__call__` with the override layer -/
 def staticViewOv (fs : Fs) (w : OvView) (ae : Option (List Enc)) (slash : Bool) (segs : List Seg) : Outcome :=
-  if raisesFirst fs w segs then .valueError
-  else
   match resourceNameOv fs w slash segs with
   | .notFound => .notFound
   | .redirect => .redirect
